@@ -47,7 +47,8 @@ def r02_1(ck, F):
             "the same iteration with n = byte length of exactly the chunk moved into the event (1 for the empty "
             "message, 4 per port)",
             "any send while the peer's buffer is nearly full: the sender overdraws and the peer reports 'used too "
-            "many flow credits' (or over-buffers)", floor=7)
+            "many flow credits' (or over-buffers)", floor=5)
+    emit_api_coverage(ck, F)
     for path, b, bb, i, rv, site in _emit_sites(F):
         takes = [t for t, _ in b.calls(TAKE) if b.dominates(t, bb)]
         # same iteration: nearest dominating take from which the aggregate is reachable without passing another take
@@ -88,7 +89,7 @@ def r02_1b(ck, F):
             "amount taken is a constant >= 1, or the byte length of a chunk split off a buffer that is known non-empty "
             "(the emit is control-dependent on is_empty() == false of that buffer)",
             "empty messages sent without spending a credit: unlimited frames in flight and a sender pool that drifts "
-            "above the peer's receive buffer", floor=6)
+            "above the peer's receive buffer", floor=4)
     for path, b, bb, i, rv, site in _emit_sites(F):
         if rv["variant"] != "SendData":
             continue
